@@ -954,6 +954,9 @@ namespace GeographicLib {
       sbetm2 /= sbetm2 + Math::sq(cbet1 + cbet2);
       dnm = sqrt(1 + _ep2 * sbetm2);
       real omg12 = lam12 / (_f1 * dnm);
+      // lam12 <= pi, but omg12 can exceed pi by roundoff; then sin(omg12) < 0
+      // and the sanity check below would replace the starting azimuth by 90deg
+      if (omg12 > Math::pi()) omg12 = Math::pi();
       somg12 = sin(omg12); comg12 = cos(omg12);
     } else {
       somg12 = slam12; comg12 = clam12;
